@@ -1570,6 +1570,10 @@ func GetHistoImageSymbols(width, height int, refs *BackwardRefs, quality int,
 		histogramRemap(origHisto.histos, imageHisto, symbols)
 	}
 
+	// The decoder reads max(symbol)+1 prefix-code groups, so every cluster
+	// that is written must be referenced by some tile.
+	removeUnusedHistograms(imageHisto, symbols)
+
 	// Recompute final costs.
 	for _, h := range imageHisto.histos {
 		h.computeHistogramCost()
@@ -1587,6 +1591,38 @@ func GetHistoImageSymbols(width, height int, refs *BackwardRefs, quality int,
 	}
 
 	return symbols, imageHisto
+}
+
+// removeUnusedHistograms drops the clusters no tile maps to and renumbers the
+// symbols accordingly (libwebp: RemoveEmptyHistograms + OptimizeHistogramSymbols).
+// After the remap pass a cluster can lose all its tiles; if it kept its slot the
+// encoder would write one prefix-code group more than the decoder reads.
+func removeUnusedHistograms(imageHisto *HistoSet, symbols []uint16) {
+	n := len(imageHisto.histos)
+	used := make([]bool, n)
+	for _, s := range symbols {
+		if int(s) < n {
+			used[s] = true
+		}
+	}
+	remap := make([]uint16, n)
+	k := 0
+	for i, u := range used {
+		if u {
+			remap[i] = uint16(k)
+			imageHisto.histos[k] = imageHisto.histos[i]
+			k++
+		}
+	}
+	if k == 0 || k == n {
+		return
+	}
+	imageHisto.histos = imageHisto.histos[:k]
+	for i, s := range symbols {
+		if int(s) < n {
+			symbols[i] = remap[s]
+		}
+	}
 }
 
 // extractClusterCenters copies the cluster center histograms from the shared
